@@ -368,7 +368,7 @@ fn dispatch_case(k: usize) -> (u8, u8) {
 
 /// Every request kind with all field values, on every valid responder state.
 #[kani::proof]
-#[kani::unwind(4)]
+#[kani::unwind(21)]
 fn c18_responder_dispatch_structured() {
     let (d0, _) = dispatch_case(0);
     let (d, q) = dispatch_case(2);
@@ -385,7 +385,7 @@ fn c18_responder_dispatch_structured() {
 /// `poll` on every valid responder state without any message (covers Send / Idle / Stopped,
 /// which a single received message cannot produce).
 #[kani::proof]
-#[kani::unwind(4)]
+#[kani::unwind(21)]
 fn c18_responder_poll_any_state() {
     let mut r = any_responder(1, 1);
     let q = poll_without_graph(&mut r);
